@@ -62,6 +62,15 @@ def jobs(tier, seed):
             add(d, ["deriv", "deriv_early"], var=(vs or ["x"])[0], supplied=vs)
     for d in fam.f1_shared(tier):
         add(d, LATE[:2] + EARLY[:1], var="x")
+    # the main point first, the caches refilled at another point elsewhere, then the queries at the main point
+    for d in fam.f1_shared(tier)[::2] + [["Logarithm", ["Add", fam.X, ["const", 1]]], ["Reciprocal", ["Minus", ["Multiply", fam.X, fam.Y], ["const", 1]]]]:
+        for pre in fam.sandwiches(d):
+            add(d, LATE + EARLY[:2], var="x", pre=pre)
+    # one long-lived object located / queried at q first, then at the main point (a table keyed by the point is explored on its colliding path)
+    for d in [["Reciprocal", ["Add", fam.X, ["const", 1]]], ["Logarithm", ["Multiply", fam.X, fam.Y]], ["Divide", fam.Y, ["Minus", fam.X, ["const", 2]]]]:
+        for r in ("diff_at", "diff_at_early", "diff_comp_at", "fwd", "fwd_early", "fwd_after_asexp"):
+            js.append({"mode": "route", "d": d, "routes": ["eval", r], "var": "x", "reuse_seq": [["obj", "q"]]})
+            js.append({"mode": "route", "d": d, "routes": ["eval", r], "var": "x", "reuse_seq": [["obj", ""], ["obj", ""]]})
     # one long-lived early object queried at another point first (its own domain check must not rely on leftovers)
     for d in [["Logarithm", fam.X], ["Power", fam.X, ["const", 2]], ["Add", fam.X, ["Logarithm", fam.Y]], ["Logarithm", ["Multiply", fam.X, fam.Y]],
               ["Divide", fam.X, ["Minus", fam.Y, ["const", 1]]]]:
